@@ -96,6 +96,12 @@ def check(ctx, c, queries, owners):
         last = last or not mf
     if all(cov) and last and dgrams:
         inside = [d for d, q in zip(dgrams, g["reqs"]) if q[0] == "datagram" or 8 * q[1] <= n]
+        # the extracted RFC 791 specification places every byte by scanning the fragments: its cost is payload x fragment
+        # size; sets with very large fragments are left to the per-fragment clauses above (which imply reassembly,
+        # theorem C07 reassemble_cover)
+        if n * max(len(d) for d in inside) > 1.2e8:
+            ctx.dist["reassembly_left_to_fragment_clauses"] = ctx.dist.get("reassembly_left_to_fragment_clauses", 0) + 1
+            return
         sh = list(inside)
         ctx.rng.shuffle(sh)
         for order, name in ((inside, "emission"), (sh, "shuffled")):
@@ -154,11 +160,20 @@ def run(ctx):
     big = bytes(r.getrandbits(8) for _ in range(bign))
     step = 185
     reqs = [("fragment", o, step) for o in range(0, (bign + 7) // 8, step)] + [("tail", max(0, (bign // 8) - 50))] + \
-           [("fragment", 4095, 2), ("fragment", 4096, 1), ("fragment", (bign // 8) - 1, 1)]
+           [("fragment", 4095, 2), ("fragment", 4096, 1), ("fragment", (bign // 8) - 1, 1),
+            # over-long requests: the byte length 8*len does not fit 16 bits, the request is clipped to the payload
+            ("fragment", 0, 8192), ("fragment", 5, 8191), ("fragment", 1, 65535), ("tail", 100), ("tail", 0)]
     r.shuffle(reqs)
     c = frag_case("max", r, big, reqs, {"src": ip("10.0.0.1"), "dst": ip("10.0.0.2"), "id": 77}, False)
     c.gen["kind"] = "max-datagram"
     cases.append(c)
+    # tails of payloads of 8192 bytes and more (8 * length passes 2^16), and of payloads that are not a multiple of 8
+    for j, (n, offs) in enumerate([(8200, [0, 1, 512, 1000]), (50000, [0, 3000, 6000]), (8192, [0, 1023]), (1203, [0, 1, 150]), (43, [0, 5])]):
+        payload = bytes(r.getrandbits(8) for _ in range(n))
+        reqs = [("tail", o) for o in offs] + [("fragment", 0, offs[-1] or 1)]
+        c = frag_case("t%d" % j, r, payload, reqs, {"src": ip("10.0.0.1"), "dst": ip("10.0.0.2"), "id": 9 + j}, None)
+        c.gen["kind"] = "tails"
+        cases.append(c)
     # payloads that are themselves raw segments
     for i in range(6 if not ctx.thorough else 20):
         c = Case()
